@@ -106,7 +106,13 @@ pub fn run(stdout: &mut StandardStream, hy_opt: &HyeongOption) -> Result<(), Err
             _ => {
                 let code = parse::parse(input);
                 for c in code.iter() {
-                    state = execute::execute(&mut stdin(), &mut out, &mut err, state, c)?;
+                    let next = execute::execute(&mut stdin(), &mut out, &mut err, state, c);
+                    if next.is_err() {
+                        // show what this line wrote before the failing command
+                        out.flush().unwrap();
+                        err.flush().unwrap();
+                    }
+                    state = next?;
                 }
             }
         }
